@@ -19,12 +19,32 @@ T1B = T1.replace('(0..7)', '(0..255)')
 T2 = 'Bar DEFINITIONS ::= BEGIN\nB ::= SEQUENCE OF INTEGER\nC ::= ENUMERATED { on, off }\nEND\n'
 T3 = ('Fie-Mod DEFINITIONS ::= BEGIN\nFie ::= SEQUENCE {\n  bar INTEGER,\n  fum ANY DEFINED BY bar\n}\nEND\n')
 K = T1.index('INTEGER') + 4
-POOL = {'T1': T1, 'T1B': T1B, 'T2': T2, 'T3': T3, 'T1-head': T1[:K], 'T1-tail': T1[K:], 'EMPTY': ''}
+# near twins: texts that mean something different but collide under a lossy cache key (same length; same multiset of
+# characters; equal up to letter case; equal except in the last line; equal up to white-space, where the white-space
+# ends a comment or sits inside a character string)
+T1C = T1.replace('(0..7)', '(0..9)')
+T1D = T1.replace('(0..7)', '(0..17)')
+T1E = T1.replace('(0..7)', '(0..71)')
+T1F = T1.replace('green(5)', 'greeN(5)')
+T2B = T2.replace('off', 'ofg')
+T4 = ('Ws DEFINITIONS AUTOMATIC TAGS ::= BEGIN\nW ::= SEQUENCE { a INTEGER -- , b BOOLEAN\n'
+      ', s IA5String DEFAULT "x y" }\nEND\n')
+T4W = ('Ws DEFINITIONS AUTOMATIC TAGS ::= BEGIN\nW ::= SEQUENCE { a INTEGER --\n , b BOOLEAN '
+       ', s IA5String DEFAULT "x  y" }\nEND\n')
+assert T4.split() == T4W.split() and sorted(T1D) == sorted(T1E) and len(T1) == len(T1C)
+POOL = {'T1': T1, 'T1B': T1B, 'T2': T2, 'T3': T3, 'T1-head': T1[:K], 'T1-tail': T1[K:], 'EMPTY': '',
+        'T1C': T1C, 'T1D': T1D, 'T1E': T1E, 'T1F': T1F, 'T2B': T2B, 'T4': T4, 'T4W': T4W}
+TWINS = {'T1': ['T1B', 'T1C', 'T1F'], 'T1B': ['T1'], 'T1C': ['T1'], 'T1D': ['T1E'], 'T1E': ['T1D'], 'T1F': ['T1'],
+         'T2': ['T2B', 'T1'], 'T2B': ['T2'], 'T3': ['T2'], 'T4': ['T4W'], 'T4W': ['T4']}
+WRITE_POOL = ['T1', 'T1', 'T1B', 'T2', 'T2', 'T3', 'T3', 'T1-head', 'T1-tail', 'EMPTY', 'T1C', 'T1D', 'T1E', 'T1F', 'T2B',
+              'T4', 'T4', 'T4W']
 ADB = {('Fie-Mod', 'Fie', 'fum'): {0: 'NULL', 1: 'INTEGER'}}
 ADB2 = {('Fie-Mod', 'Fie', 'fum'): {0: 'BOOLEAN', 1: 'NULL'}}
 CODECS = ['ber', 'der', 'per', 'uper', 'oer', 'jer', 'xer', 'gser']
 PROBES = [('A', {'n': 3}), ('A', {'e': 'x', 'n': 7}), ('A', {'e': 0, 'n': 0}), ('A', {'n': 200}),
           ('E', 'green'), ('E', 5), ('B', [1, -2]), ('C', 'off'), ('C', 1),
+          ('A', {'n': 9}), ('A', {'n': 17}), ('A', {'n': 71}), ('E', 'greeN'), ('C', 'ofg'),
+          ('W', {'a': 1}), ('W', {'a': 1, 'b': True}),
           ('Fie', {'bar': 0, 'fum': None}), ('Fie', {'bar': 1, 'fum': 5}), ('Fie', {'bar': 0, 'fum': True}),
           ('Fie', {'bar': 1, 'fum': b'\x05\x00'})]
 
@@ -125,7 +145,7 @@ class C17Machine(RuleBasedStateMachine):
     def path(self, slot):
         return os.path.join(self.dir, slot + '.asn')
 
-    @rule(slot=st.sampled_from(['f1', 'f2', 'f3']), text=st.sampled_from(sorted(POOL)))
+    @rule(slot=st.sampled_from(['f1', 'f2', 'f3']), text=st.sampled_from(WRITE_POOL))
     def write_file(self, slot, text):
         with open(self.path(slot), 'w') as f:
             f.write(POOL[text])
@@ -155,8 +175,8 @@ class C17Machine(RuleBasedStateMachine):
             codec = data.draw(st.sampled_from([c for c in CODECS if c != codec]))
         elif what == 'text':
             s0 = chosen[0]
-            swap = {'T1': 'T1B', 'T1B': 'T1', 'T2': 'T1', 'T3': 'T2'}.get(self.files[s0], 'T1')
-            self.write_file(s0, swap)
+            twins = TWINS.get(self.files[s0], ['T1'])
+            self.write_file(s0, twins[data.draw(st.integers(0, len(twins) - 1))])
         elif what == 'order' and len(chosen) > 1:
             chosen = chosen[1:] + chosen[:1]
         self.do_compile(chosen, codec, ne, adb)
@@ -272,7 +292,8 @@ class C17(Check):
     id = 'C17'
     level = 'fault_enumeration'
     engine = 'hypothesis stateful + crash-point enumeration'
-    rule = ('histories over one fresh cache directory: write_file(slot, text from a pool incl. a changed constraint, an '
+    rule = ('histories over one fresh cache directory: write_file(slot, text from a pool incl. a changed constraint, near '
+            'twins that differ only in white-space that matters / letter case / one digit / digit order / the last line, an '
             'ANY DEFINED BY module and a module split mid-token over two files), compile_files(files, order, codec in 8, '
             'numeric_enums, any_defined_by_choices) with cache vs without, corrupt_cache(truncate/flip/zero at a drawn '
             'offset of a drawn cache file), crashed_writer(n): child populating the cache SIGKILLed at its n-th '
@@ -283,9 +304,33 @@ class C17(Check):
                    'an error from a cache that was damaged earlier in the history is allowed by the property']
 
     def shards(self, tier):
-        return [{'i': i} for i in range(16)]
+        return [{'i': i} for i in range(16)] + [{'i': 16 + j, 'directed': j} for j in range(4)]
+
+    def directed(self, shard, seed, rec):
+        """stratification floor: for every near-twin pair (a, b): compile a, rewrite the file as b, compile again with the
+        same options (the second compile must not be served the first text's codec)"""
+        pairs = sorted((a, b) for a, bs in TWINS.items() for b in bs)
+        base = tempfile.mkdtemp(prefix='asn1v-c17d-', dir=os.environ.get('TMPDIR', '/tmp'))
+        try:
+            for k, (a, b) in enumerate(pairs):
+                if k % 4 != shard['directed']:
+                    continue
+                codec = CODECS[(seed + k) % len(CODECS)]
+                ne = bool((seed + k) % 2)
+                case = {'history': [['write', 'f1', a], ['compile', ['f1'], [a], codec, ne, None],
+                                    ['write', 'f1', b], ['compile', ['f1'], [b], codec, ne, None]], 'pool': POOL}
+                rec.cases += 1
+                rec.cls('directed-cases')
+                self.replay(case, rec, count=True)
+                rec.nt(case['history'])
+        finally:
+            shutil.rmtree(base, ignore_errors=True)
 
     def run_shard(self, shard, tier, seed, rec):
+        if 'directed' in shard:
+            if not shard.get('_shrink'):
+                self.directed(shard, seed, rec)
+            return
         scale = float(os.environ.get('ASN1V_SCALE', '1'))
         n = max(1, int((6 if tier == "quick" else 300) * scale))
         # one scratch directory per shard, removed whatever happens to the individual machines
@@ -297,7 +342,7 @@ class C17(Check):
             shutil.rmtree(C17Machine.BASE, ignore_errors=True)
             C17Machine.BASE = None
 
-    def replay(self, case, rec):
+    def replay(self, case, rec, count=False):
         base = tempfile.mkdtemp(prefix='asn1v-c17r-', dir=os.environ.get('TMPDIR', '/tmp'))
         cache = os.path.join(base, 'cache')
         pool = case.get('pool', POOL)
@@ -312,6 +357,8 @@ class C17(Check):
                     table = {'ADB': ADB, 'ADB2': ADB2}.get(h[5])
                     want = outcome(asn1tools.compile_files, files, h[3], any_defined_by_choices=table, numeric_enums=h[4])
                     got = cached_compile(base, files, h[3], h[4], h[5], cache)
+                    if count:
+                        rec.ev()
                     if got[0] != 'ok':
                         if want[0] == 'ok' and not damaged:
                             rec.fail(Failure('cache-raises', 'cached compile failed %s' % (got[:3],), case))
